@@ -1,0 +1,7 @@
+//go:build !verif
+
+package task
+
+import "github.com/go-task/task/v3/taskfile/ast"
+
+func vhook(string, *ast.Task) {}
